@@ -8,6 +8,7 @@ import re
 
 from lib import vlib
 from lib.props import C12 as A
+from lib.props import C12gram as G
 
 CONST_ID, CLOSE_ID = 1000001, 1000002
 _orig_tok_text = A.tok_text
@@ -100,9 +101,18 @@ class Gen:
             return ("forin", [r.below(6) for _ in range(1 + r.below(3))], self.explist(1, 3), self.block(depth - 1))
         if k < 94:
             ps, dots = self.params()
-            return ("funcstat", [r.below(6) for _ in range(1 + r.below(3))], r.below(6) if r.chance(1, 3) else None, ps, dots, self.block(depth - 1))
+            path, meth = [r.below(6) for _ in range(1 + r.below(3))], r.below(6) if r.chance(1, 3) else None
+            return ("funcstat", path, meth, ps, dots, self.fbody(depth - 1, dots))
         ps, dots = self.params()
-        return ("localfunc", r.below(6), ps, dots, self.block(depth - 1))
+        return ("localfunc", r.below(6), ps, dots, self.fbody(depth - 1, dots))
+
+    def fbody(self, depth, dots):
+        """'...' may only be used directly inside a variadic function (manual 3.4.11)"""
+        A.ALLOW_ETC.append(dots)
+        try:
+            return self.block(depth)
+        finally:
+            A.ALLOW_ETC.pop()
 
 
 def nm(k):
@@ -321,6 +331,7 @@ def nosemi(b):
 
 def go_tok(t):
     body, _, line = t.rpartition("@")
+    line = line.split(".")[0]
     if body == "name:const":
         return "name:%d" % CONST_ID, int(line)
     if body == "name:close":
@@ -341,14 +352,40 @@ def tok_text(tok, rng):
     return _orig_tok_text(tok, rng)
 
 
-def render(toks, rng):
+def render(toks, rng, nl=None):
     """A.render with the attribute names spelled out"""
     saved = A.tok_text
     A.tok_text = tok_text
     try:
-        return A.render(toks, rng, True)
+        return A.render(toks, rng, True, nl)
     finally:
         A.tok_text = saved
+
+
+# statements that the grammar of the manual (§9) and its rules reject although each looks like a valid one — and valid
+# look-alikes; put in front of a generated chunk.  The verdict and the offending token come from C12gram.
+GRAMMAR_PROBES = [
+    "( name:1 ) = num:1", "name:1 , ( name:2 ) = num:1 , num:2", "( name:1 . name:2 ) = num:1", "( name:1 [ num:1 ] ) = num:1",
+    "( ( name:1 ) ) = num:1", "name:1 = { ( name:2 ) = num:1 }", "name:1 = { name:2 . name:3 = num:1 }", "name:1 = { [ name:2 ] num:1 }",
+    "function name:1 ( name:2 , ) end", "function name:1 ( , name:2 ) end", "function name:1 ( ... , name:2 ) end",
+    "function name:1 ( name:2 name:3 ) end", "local function name:1 ( name:2 , ) end", "function name:1 . name:2 : name:3 . name:4 ( ) end",
+    "function name:1 ( ) return ... end", "function name:1 ( name:2 ) name:2 = { ... } end",
+    "function name:1 ( ... ) return function ( name:2 ) return ... end end", "local function name:1 ( ) name:1 ( ... ) end",
+    "function name:1 ( ... ) local function name:2 ( ) return # { ... } end end",
+    "name:1 ( ) = num:1", "name:1 : name:2 = num:1", "name:1 . name:2 : name:3 ( ) . name:4", "local name:1 . name:2 = num:1",
+    "for name:1 . name:2 = num:1 , num:2 do end", "for name:1 , name:2 = num:1 , num:2 do end", "for name:1 = num:1 do end",
+    "for name:1 = num:1 , num:2 , num:3 , num:4 do end", "for name:1 in do end", "if name:1 then else elseif name:2 then end",
+    "repeat until", "while do end", "function ( ) end", "goto num:1", ":: name:1 name:2 ::", "return return", "name:1 = = num:1",
+    "name:1 = num:1 num:2", "local < name:1000001 > name:1", "local name:1 < name:3 >", "local name:1 < name:1000001", "name:1 = { num:1 num:2 }",
+    "name:1 = { , }", "name:1 ( num:1 , )", "return num:1 ,", "do end end", "break ( )", "name:1 = function ( name:2 , ) end",
+    # valid look-alikes
+    "( name:1 ) . name:2 = num:1", "( name:1 ) [ num:1 ] = num:1", "( name:1 ) ( )", "( name:1 ) : name:2 ( )", "( str:1 ) : name:2 ( )",
+    "function name:1 ( ... ) return ... end", "function name:1 ( name:2 , ... ) return { ... } , ( ... ) end",
+    "function name:1 ( ... ) return function ( ... ) return ... end end", "name:1 = { name:2 = num:1 ; [ name:2 ] = num:1 , name:2 , }",
+    "name:1 ( ) . name:2 = num:1", "name:1 { } [ num:1 ] , name:2 = num:1 , num:2", "local name:1 < name:1000002 > , name:2 < name:1000001 > = nil , nil",
+    "for name:1 , name:2 in name:3 , name:4 do end", "goto name:1", ":: name:1 ::", "return", ";",
+]
+MULTICLOSE_PROBE = "local name:1 < name:1000002 > , name:2 < name:1000002 > = nil , nil"
 
 
 def check_statements(ck, gvh, oracle, tier, st):
@@ -424,9 +461,16 @@ def check_statements(ck, gvh, oracle, tier, st):
         else:
             t2 = toks[:p + 1]
         cases.append({"toks": t2, "expect": None, "kind": "corrupt"})
+    # grammar probes in front of generated chunks (every probe in quick, x20 in thorough)
+    nvalid = len(chunks)
+    for rep_ in range(1 if tier == "quick" else 20):
+        for pi, probe in enumerate(GRAMMAR_PROBES + [MULTICLOSE_PROBE]):
+            base = cases[rng.below(nvalid)]["toks"] if rng.chance(2, 3) else []
+            cases.append({"toks": probe.split(" ") + list(base), "expect": None, "kind": "grammar-probe", "probe": probe})
     gl = []
     for i, c in enumerate(cases):
-        c["src"], c["lines"], c["eofline"] = render(c["toks"], rng)
+        c["nl"] = A.NL_STYLES[i % len(A.NL_STYLES)]
+        c["src"], c["lines"], c["eofline"] = render(c["toks"], rng, c["nl"])
         gl.append("k%d %s" % (i, A.hexsrc(c["src"])))
     gout = vlib.run_lines_resilient(gvh, ["chunk"], gl, per_case_timeout=30)
     pl, pidx = [], []
@@ -436,6 +480,7 @@ def check_statements(ck, gvh, oracle, tier, st):
         c["go_body"] = f[2] if len(f) > 2 else gout[i]
         gt = [go_tok(t) for t in f[1].split(" ") if t] if len(f) > 2 else []
         c["go_toks"] = gt
+        c["go_pos"] = [t.rpartition("@")[2] for t in f[1].split(" ") if t] if len(f) > 2 else []
         if gt and all(t[0] is not None for t in gt) and gt[-1][0] == "eof":
             pl.append("k%d PS %s" % (i, " ".join(t[0] for t in gt[:-1])))
             pidx.append(i)
@@ -455,8 +500,54 @@ def check_statements(ck, gvh, oracle, tier, st):
                "go": gout[i][:3000], "model": model}
         ok = c["go_status"] == "ok"
         goast = go_ast(c["go_body"]) if ok else None
+        # ---- S: the manual's grammar and rules (C12gram): golua accepts <=> the manual accepts, same offending token
+        sres = G.recognise(c["toks"], "chunk", allow_multiclose=True)
+        strict = G.recognise(c["toks"], "chunk") if sres[0] == "ok" else sres
+        ck.count("e:grammar:" + (sres[0] if sres[0] == "ok" else sres[3].split(" ")[0]))
+        gidx = None
+        if c["go_status"] == "err":
+            gb = c["go_body"].split(" ")
+            key = "%s.%s" % (gb[0], gb[1])
+            gidx = c["go_pos"].index(key) if key in c["go_pos"] else None
+            gmsg = bytes.fromhex(gb[2]).decode("latin-1") if len(gb) > 2 and gb[2] != "-" else ""
+            bad = A.bad_message(gmsg, r"^\d+:\d+: ")
+            if bad:
+                st["go_ne_s"] += 1
+                if st["go_ne_s"] <= 5:
+                    ck.violation("ill-formed syntax error message (%s): %r" % (bad, gmsg[:100]), dict(rep, kind="Go!=S"))
+                continue
+        if (sres[0] == "ok") != ok or (sres[0] == "err" and (gidx is None or not (sres[1] <= gidx <= sres[2]))):
+            st["go_ne_s"] += 1
+            if st["go_ne_s"] <= 5:
+                rep["kind"] = "Go!=S"
+                rep["grammar"] = list(sres)
+                rep["go_error_token_index"] = gidx
+                ck.violation("golua and the manual's grammar disagree on a chunk (golua %s at token %s, manual %s): %s"
+                             % (c["go_status"], gidx, " ".join(str(x) for x in sres), c["src"][:80].replace("\n", "\\n")), rep)
+            continue
+        if strict[0] == "err" and strict[3] == "multiclose" and sres[0] == "ok":
+            k = ck.known_match(lambda k_: k_["id"] == "C12-multiple-close-accepted")
+            if k is not None:
+                ck.known_finding(k)
+            else:
+                st["go_ne_s"] += 1
+                ck.violation("several to-be-closed variables in one local list are accepted and the finding is not recorded", dict(rep, kind="Go!=S"))
+        if c["kind"] == "grammar-probe":
+            ck.case(c["src"], True)
+        if sres[0] == "err" and sres[3] in ("vararg",):
+            # the Coq model (Front/Stat.v) has the context-free grammar only: rule violations are compared with S alone
+            if c["kind"] != "grammar-probe":
+                ck.case(c["src"], True)
+            continue
         if model is None or model.startswith("unsupported"):
-            ck.case(c["src"], False)
+            if c["kind"] != "grammar-probe":
+                ck.case(c["src"], False)
+            continue
+        if c["kind"] == "grammar-probe":
+            # Go ~ IM on the probe: acceptance and offending token
+            if model.startswith("ok ") != ok or (model.startswith("err ") and gidx != int(model.split(" ")[1])):
+                st["go_ne_im"] += 1
+                st["first_im"] = st["first_im"] or rep
             continue
         if c["kind"] == "valid":
             ck.case(c["src"], ok)
